@@ -20,7 +20,8 @@ Inductive mkind := MemStore | FsMeta.
 
 Record file := mkFile {
   fl_blocks : list (list nat);    (* row ids per data block; never changes *)
-  fl_there : bool                 (* present in the DataStore: published and not tombstoned *)
+  fl_there : bool;                (* present in the DataStore: published and not tombstoned *)
+  fl_pub : bool                   (* ghost: its writer's Close has returned nil at some point *)
 }.
 
 Definition rows (f : file) : list nat := concat (fl_blocks f).
@@ -60,6 +61,7 @@ Definition getf (s : mstate) (f : nat) : option file := nth_error (s_files s) f.
 Definition frows (s : mstate) (f : nat) : list nat := match getf s f with Some x => rows x | None => [] end.
 Definition rows_of (s : mstate) (fs : list nat) : list nat := flat_map (frows s) fs.
 Definition there (s : mstate) (f : nat) : bool := match getf s f with Some x => fl_there x | None => false end.
+Definition published (s : mstate) (f : nat) : bool := match getf s f with Some x => fl_pub x | None => false end.
 Definition block_rows (s : mstate) (fb : nat * nat) : list nat :=
   match getf s (fst fb) with Some x => nth (snd fb) (fl_blocks x) [] | None => [] end.
 Definition blocks_of (s : mstate) (f : nat) : list (nat * nat) :=
@@ -88,7 +90,7 @@ Fixpoint remove_at {A} (i : nat) (l : list A) : list A :=
 
 Definition set_there (f : nat) (b : bool) (s : mstate) : list file :=
   match getf s f with
-  | Some x => upd_nth f (mkFile (fl_blocks x) b) (s_files s)
+  | Some x => upd_nth f (mkFile (fl_blocks x) b (fl_pub x || b)) (s_files s)
   | None => s_files s
   end.
 
@@ -145,15 +147,15 @@ Definition mstep (k : mkind) (s : mstate) (l : mlabel) : option mstate :=
   | LFCreate blocks =>
       let r := concat blocks in
       if nodupn r && disjn r (s_ingested s) then
-        Some (mkM (s_files s ++ [mkFile blocks false]) (s_meta s) (s_pending s ++ [length (s_files s)]) (s_commit s)
+        Some (mkM (s_files s ++ [mkFile blocks false false]) (s_meta s) (s_pending s ++ [length (s_files s)]) (s_commit s)
                   (s_acked s) (s_ingested s ++ r) (s_merge s) (s_queries s))
       else None
   | LFPublish f =>
-      if memn f (s_pending s) && negb (there s f) then
+      if memn f (s_pending s) && negb (published s f) then
         Some (mkM (set_there f true s) (s_meta s) (s_pending s) (s_commit s) (s_acked s) (s_ingested s) (s_merge s) (s_queries s))
       else None
   | LFUpdate f =>
-      if memn f (s_pending s) && (there s f || match k with FsMeta => true | MemStore => false end) then
+      if memn f (s_pending s) && (there s f || match k with FsMeta => published s f | MemStore => false end) then
         Some (mkM (s_files s) (match k with MemStore => s_meta s ++ [f] | FsMeta => s_meta s end)
                   (remove_all [f] (s_pending s)) (s_commit s ++ [f]) (s_acked s) (s_ingested s) (s_merge s) (s_queries s))
       else None
@@ -180,7 +182,7 @@ Definition mstep (k : mkind) (s : mstate) (l : mlabel) : option mstate :=
           let r := concat blocks in
           if match m_out m with None => true | Some _ => false end
              && nodupn r && incln r (rows_of s (m_srcs m)) && incln (rows_of s (m_srcs m)) r then
-            Some (mkM (s_files s ++ [mkFile blocks false]) (s_meta s) (s_pending s) (s_commit s) (s_acked s) (s_ingested s)
+            Some (mkM (s_files s ++ [mkFile blocks false false]) (s_meta s) (s_pending s) (s_commit s) (s_acked s) (s_ingested s)
                       (Some (mkMerge (m_srcs m) (Some (length (s_files s))) (m_committed m))) (with_merge_step s))
           else None
       | None => None
